@@ -41,10 +41,10 @@ func init() {
 			Expect: "safe.index / nasConvert.UESecurityCapabilityToByteArray", Why: "3-octet capability reads octet 3"},
 		Mutant{Name: "c14-amfid-len", Prop: "C14", File: "nasConvert/AmfId.go", Old: "if len(amfIdBytes) != 3 {", New: "if len(amfIdBytes) > 3 {",
 			Expect: "safe.index / nasConvert.AmfIdToNasWithError", Why: "short AMF id indexes past the end"},
-		Mutant{Name: "c14-ladn-zero-len", Prop: "C14", File: "nasConvert/Ladn.go", Old: "if lenOfDnn == 0 || bufOffset+lenOfDnn > len(buf) {", New: "if bufOffset+lenOfDnn > len(buf) {",
+		Mutant{Name: "c14-ladn-zero-len", Prop: "C14", File: "nasConvert/Ladn.go", Old: "\t\tbufOffset += 1 + lenOfDnn", New: "\t\tbufOffset += lenOfDnn",
 			Expect: "safe.loop / nasConvert.LadnToModels", Why: "a zero length octet never advances: endless loop"},
-		Mutant{Name: "c14-ladn-overrun", Prop: "C14", File: "nasConvert/Ladn.go", Old: "if lenOfDnn == 0 || bufOffset+lenOfDnn > len(buf) {", New: "if lenOfDnn == 0 {",
-			Expect: "safe.slice / nasConvert.LadnToModels", Why: "length past the end of the buffer"},
+		Mutant{Name: "c14-ladn-overrun", Prop: "C14", File: "nasConvert/Ladn.go", Old: "\t\tif bufOffset+1+lenOfDnn > len(buf) {", New: "\t\tif bufOffset+lenOfDnn > len(buf) {",
+			Expect: "safe.slice / nasConvert.LadnToModels", Why: "length one past the end of the buffer"},
 		Mutant{Name: "c14-dnn-empty", Prop: "C14", File: "nasType/NAS_DNN.go", Old: "\tif len(fqdn) == 0 {\n\t\treturn \"\"\n\t}\n", New: "",
 			Expect: "safe.slice / nasType.rfc1035tofqdn", Why: "empty DNN slices [:-1]"},
 		Mutant{Name: "c14-nssai-wrap", Prop: "C14", File: "nasConvert/Nssai.go", Old: "\tdefault:\n\t\treturn snssai, fmt.Errorf(\"Invalid length of S-NSSAI contents: %d\", lengthOfSnssaiContents)", New: "\tdefault:\n\t\treturn snssai, nil",
